@@ -541,6 +541,7 @@ def d2_product(ctx, idx, flag_attr):
         fi = idx.func(ME + '.eval_product')
         if not npleft:
             raise AnalysisError('eval_product chains were not interpreted')
+        ctx.extra['_c14_leftcast_all_chains'] = all(fail is None for n_ok, fail in npleft.values())
         for n, (n_ok, fail) in sorted(npleft.items()):
             construct = 'MathExpression.eval_product [numpy scalars never reach an array as left operand, %d operands]' % n
             if fail is None:
@@ -659,17 +660,31 @@ def d3_negative_powers(ctx, idx):
             r.ok('MathArray.enable_negative_powers: setup', 'cls.%s = %s %s' % (flag_attr, valp, entry),
                  lib.loc(installs[0]['fi'], installs[0]['node']))
         # __pow__ reads that flag
+        # the switch is read by the power operator: anywhere in its module (the method, a helper, a refusal table's lambda);
+        # that the read has the right EFFECT is decided by D1.TABLE (rows "negative powers disabled")
         pw = idx.func(AQ + '.__pow__')
-        reads = [n for n in walk_own(pw.node) if isinstance(n, ast.Attribute) and n.attr == flag_attr and isinstance(n.ctx, ast.Load)]
-        r.check(bool(reads), 'MathArray.__pow__: switch', 'reads MathArray.%s' % flag_attr,
-                '__pow__ no longer reads the class flag %s that enable_negative_powers installs: the switch has no effect' % flag_attr,
-                pw.loc)
+        reads = [n for n in ast.walk(pw.module.tree) if isinstance(n, ast.Attribute) and n.attr == flag_attr and isinstance(n.ctx, ast.Load)
+                 and not any(a_ is cm.node for a_ in ancestors(n))
+                 and not any(isinstance(a_, ast.ClassDef) and a_.name == (model.get('class_name') or '') for a_ in ancestors(n))]
+        if reads:
+            r.ok('MathArray.__pow__: switch', 'MathArray.%s is read by the power code' % flag_attr, pw.loc)
+        else:
+            absent(r, idx, 'MathArray.__pow__: switch', 'nothing in %s reads the class flag %s that enable_negative_powers installs: the '
+                   'switch has no effect' % (pw.module.relpath, flag_attr), pw.loc)
         # the grader side
-        fi = idx.func('mitxgraders.formulagrader.matrixgrader.MatrixGrader.check_response')
-        sup = [c for c in lib.calls_named(fi.node, 'check_response') if isinstance(c.func, ast.Attribute)
-               and isinstance(c.func.value, ast.Call) and nf.callee_name(c.func.value) == 'super']
+        entry = idx.func('mitxgraders.formulagrader.matrixgrader.MatrixGrader.check_response')
+        fi, sup = entry, []
+        # the call of the parent's check_response may live in a helper method of MatrixGrader that check_response calls
+        for cand in [entry] + [m for m in idx.cls('mitxgraders.formulagrader.matrixgrader.MatrixGrader').methods.values() if m is not entry]:
+            found = [c for c in lib.calls_named(cand.node, 'check_response') if isinstance(c.func, ast.Attribute)
+                     and isinstance(c.func.value, ast.Call) and nf.callee_name(c.func.value) == 'super']
+            if found:
+                fi, sup = cand, found
+                break
         if not sup:
-            raise AnalysisError('MatrixGrader.check_response: no super().check_response call')
+            raise AnalysisError('MatrixGrader: no super().check_response call')
+        if fi is not entry and not lib.calls_named(entry.node, fi.name):
+            raise AnalysisError('MatrixGrader.check_response does not call %s, which holds the parent call' % fi.name)
         for call in sup:
             withs = []
             child = call
@@ -1105,7 +1120,7 @@ def _value_cases(expr):
 
 # ----------------------------------------------------------------------------- D4
 def d4_cast(ctx, idx, flag_attr):
-    r = ctx.rule('D4.CAST', 'results of evaluation actions and intermediate products pass through cast_np_numeric_as_builtin', floor=11)
+    r = ctx.rule('D4.CAST', 'results of evaluation actions and intermediate products pass through cast_np_numeric_as_builtin', floor=10)
     with r:
         cast = idx.func(CAST)
         # (a) the cast itself, by interpretation, in every mode its callers (eval_node, eval_product, helpers split off them) use
@@ -1205,6 +1220,20 @@ def d4_cast(ctx, idx, flag_attr):
         if n_ret == 0:
             absent(r, idx, 'MathExpression.eval_node: return of the action result', 'no return hands out the action result', fi.loc)
         # (c) eval_product: every arithmetic update of the accumulator is followed by the cast before the next iteration / return
+        try:
+            _d4_product_loop(r, idx, cast)
+        except AnalysisError as e:
+            if ctx.extra.get('_c14_leftcast_all_chains'):
+                # the loop keeps its state elsewhere (an accumulator object, a table of steps): its statement structure is not
+                # read here, but the same obligation was decided semantically over all chains by D4.LEFTCAST
+                r.ok('MathExpression.eval_product: cast after every step', 'loop shape not read structurally (%s); decided by '
+                     'interpretation over all chains (D4.LEFTCAST)' % e, idx.func(ME + '.eval_product').loc, nontrivial=False)
+            else:
+                raise
+
+
+def _d4_product_loop(r, idx, cast):
+    if True:
         fp = idx.func(ME + '.eval_product')
         pcfg = cfg_of(fp.node)
         loops = [l for l in lib.loops_of(fp.node)]
@@ -1218,7 +1247,7 @@ def d4_cast(ctx, idx, flag_attr):
                 acc = ret.value.id
         if acc is None:
             raise AnalysisError('eval_product: the accumulator is not returned by name')
-        updates, casts = [], []
+        updates, casts, cast_updates = [], [], []
         for n in walk_own(loop):
             st = None
             if isinstance(n, ast.Assign) and len(n.targets) == 1 and isinstance(n.targets[0], ast.Name) and n.targets[0].id == acc:
@@ -1228,13 +1257,21 @@ def d4_cast(ctx, idx, flag_attr):
             if st is None:
                 continue
             ival = lib.inline_locals(val, fp.node)
-            if isinstance(ival, ast.BinOp) and isinstance(ival.op, (ast.Mult, ast.Div)):
+            if isinstance(val, ast.Call) and _resolves_to(idx, fp, val, cast) and val.args:
+                if isinstance(val.args[0], ast.Name) and val.args[0].id == acc:
+                    casts.append(st)            # acc = cast(acc)
+                elif lib.names_in(val.args[0]) & {acc}:
+                    cast_updates.append(st)     # acc = cast(<new value computed from acc>): update and cast in one statement
+                else:
+                    updates.append((st, 'accumulator update `%s`' % short(val, 40)))
+            elif isinstance(ival, ast.BinOp) and isinstance(ival.op, (ast.Mult, ast.Div)):
                 updates.append((st, 'accumulator %s factor' % ('*' if isinstance(ival.op, ast.Mult) else '/')))
-            elif isinstance(val, ast.Call) and _resolves_to(idx, fp, val, cast) and val.args and isinstance(val.args[0], ast.Name) \
-                    and val.args[0].id == acc:
-                casts.append(st)
-        if not updates:
-            raise AnalysisError('eval_product: no arithmetic update of the accumulator found')
+            elif lib.names_in(ival) & {acc}:
+                updates.append((st, 'accumulator update'))
+        if not updates and not cast_updates:
+            raise AnalysisError('eval_product: no update of the accumulator found in the loop')
+        for st in cast_updates:
+            r.ok('MathExpression.eval_product: accumulator update', 'the new value is cast in the statement that stores it', lib.loc(fp, st))
         cast_nodes = [x for s in casts for x in pcfg.nodes_of(s)]
         heads = pcfg.nodes_of(loop)
         for u, role in updates:
